@@ -5,6 +5,7 @@ import (
 	"encoding/json"
 	"fmt"
 	"math/rand"
+	"os"
 	"path/filepath"
 	"sort"
 
@@ -45,6 +46,26 @@ func ReimportRandom(outDir string, seed int64, n, depth int) (int, error) {
 		total += w.N
 	}
 	return total, nil
+}
+
+// ReimportOne runs the same histories and keeps the trace of ONE module (which: locking | bridge | relayer | export) as outFile:
+// the per-property checks whose statement spans "the lifetime of the chain" (C03 credited at most once, C11 conservation)
+// validate it with their own slice, so that state lost or invented by an export / import cycle is reported under the
+// property it breaks.
+func ReimportOne(outFile string, seed int64, n, depth int, which string) (int, error) {
+	dir, err := os.MkdirTemp(filepath.Dir(outFile), "reimp")
+	if err != nil {
+		return 0, err
+	}
+	defer os.RemoveAll(dir)
+	if _, err := ReimportRandom(dir, seed, n, depth); err != nil {
+		return 0, err
+	}
+	bz, err := os.ReadFile(filepath.Join(dir, which+".ndjson"))
+	if err != nil {
+		return 0, err
+	}
+	return bytes.Count(bz, []byte{'\n'}), os.WriteFile(outFile, bz, 0o644)
 }
 
 func reimportHistory(ws map[string]*tracew.Writer, seed int64, run, depth int) error {
